@@ -5,7 +5,7 @@ import socket
 
 from aioswitcher.api import Command, SwitcherType1Api, SwitcherType2Api
 
-ALPHABET = ["connect_ok", "connect_refused", "op_ok", "op_raise", "disconnect", "enter", "leave", "leave_exc"]
+ALPHABET = ["connect_ok", "connect_refused", "op_ok", "op_raise", "disconnect", "enter", "leave", "leave_exc", "leave_oserror", "leave_timeout"]
 
 
 class FakeDevice:
@@ -56,9 +56,21 @@ async def run_history(kind, seq):
     cls = SwitcherType1Api if kind == 1 else SwitcherType2Api
     api = cls("127.0.0.1", "ab1234", "00")
     model = False
+    flag_unknown = False
     problems = []
     try:
         for n, a in enumerate(seq):
+            if a == "connect_refused" and model:
+                # refused re-connect on a live session: the flag afterwards is not claimed; the next disconnect must still close the socket
+                api._port = dead
+                try:
+                    await api.connect()
+                    problems.append(f"step {n}: refused re-connect did not raise")
+                except OSError:
+                    pass
+                api._port = port
+                flag_unknown = True
+                continue
             if a in ("connect_ok", "connect_refused", "enter"):
                 if model:
                     break
@@ -95,10 +107,15 @@ async def run_history(kind, seq):
                 await api.disconnect()
                 model = False
             else:
-                await api.__aexit__(*((None, None, None) if a == "leave" else (ValueError, ValueError("body"), None)))
+                trip = {"leave": (None, None, None), "leave_exc": (ValueError, ValueError("body"), None),
+                        "leave_oserror": (ConnectionRefusedError, ConnectionRefusedError("other client"), None),
+                        "leave_timeout": (asyncio.TimeoutError, asyncio.TimeoutError(), None)}[a]
+                await api.__aexit__(*trip)
                 model = False
+            if a in ("disconnect", "leave", "leave_exc", "leave_oserror", "leave_timeout"):
+                flag_unknown = False
             await asyncio.sleep(0.01)
-            if api.connected != model:
+            if not flag_unknown and api.connected != model:
                 problems.append(f"step {n} {a}: connected={api.connected}, expected {model}")
             w = getattr(api, "_writer", None)
             if not model and w is not None and not w.transport.is_closing():
@@ -146,7 +163,9 @@ def run_case(c):
     if k == "loopback":
         rnd = random.Random(i["seed"])
         fixed = [["connect_ok", "op_ok", "disconnect", "connect_ok", "disconnect"], ["disconnect", "disconnect"],
-                 ["connect_refused", "connect_ok", "leave_exc", "enter", "op_raise", "leave"], ["enter", "leave_exc", "connect_refused"]]
+                 ["connect_refused", "connect_ok", "leave_exc", "enter", "op_raise", "leave"], ["enter", "leave_exc", "connect_refused"],
+                 ["connect_ok", "leave_oserror"], ["enter", "leave_timeout"], ["connect_ok", "connect_refused", "disconnect"],
+                 ["connect_ok", "op_ok", "connect_refused", "leave"]]
         for n in range(i["n"]):
             seq = fixed[n] if n < len(fixed) else [rnd.choice(ALPHABET) for _ in range(rnd.randrange(1, 8))]
             kind = 1 + n % 2
